@@ -34,8 +34,11 @@ def cfgW1 : Config := ⟨w1_baseNum, w1_baseDen, w1_shift, w1_effNum, w1_effDen,
 
 def configs : List (String × Config) := [("dec", cfgDec), ("s8b", cfgS8b), ("tst", cfgTst), ("w1", cfgW1)]
 
-/-- the element width `logmath_init` chooses (l.86-93): from `maxyx = ⌊log_b 2 + ½⌋ >> shift`,
-which is the first table entry -/
+/-- the element width `logmath_init` chooses (l.86-93) from `maxyx = ⌊log_b 2 + ½⌋ >> shift`:
+1 byte below 256, 2 bytes below 65536, else 4.  The model applies the same thresholds to the
+first table entry `t[0] = round(log_b 2 / 2^shift)` (equal to `maxyx` up to the rounding of the
+shift; that the result is the width the C code reports is checked per generated configuration,
+`Config.Checked.width_eq`, and on every run by the correspondence of the `cfg` line). -/
 def widthOf (t0 : Nat) : Nat := if t0 < 256 then 1 else if t0 < 65536 then 2 else 4
 
 end SSVerif.LogAdd
